@@ -83,6 +83,7 @@ type frame struct {
 }
 
 type Engine struct {
+	recvWB *recvWriteBack // set by methodRecv for the call being evaluated (copy-out of a value-embedded receiver)
 	w   *World
 	pk  *Pkg
 	c   *Contract
